@@ -423,7 +423,9 @@ theorem gen_pbuf_readFrom_agree (b : ParserBuffer) (h : PBWF b) (r : Reader) (fu
             · show N0 ≤ s'.len
               omega
           · have hgo : rfErr (errOfCode x.2.2) ≠ Gen.Err.ok := rfErr_errOfCode_ne _ hcode
-            simp only [hcode, hgo, ne_eq, not_false_eq_true, if_true, bind_ok, Nat.reduceEqDiff, if_false]
+            -- the error test with the operands either way round (`err != nil`, `nil == err`), either arm first
+            have hgo' : ¬ (Gen.Err.ok = rfErr (errOfCode x.2.2)) := fun hc => hgo hc.symm
+            simp only [hcode, hgo, hgo', ne_eq, not_false_eq_true, if_true, bind_ok, Nat.reduceEqDiff, if_false]
             refine RFAgreeN_ok ?_ hof rfl hwf2 ?_ rfl rfl
             · show errOfCode x.2.2 ≠ .panic
               unfold errOfCode
